@@ -2,9 +2,9 @@
    (Proofs/NamesProof.v); the Unicode and reserved-name tables are regenerated from the running
    interpreter / from /repo on every run. *)
 From Coq Require Import String Lia ZifyBool ZifyN.
-From Statham.Model Require Import Str Names RunHelpers.
+From Statham.Model Require Import Str Names RunHelpers Tables Titles.
 From Statham.Generated Require Gen_unicode Gen_reserved.
-From Statham.Proofs Require Import StrFacts NamesProof.
+From Statham.Proofs Require Import StrFacts NamesProof TitlesProof.
 Arguments in_ranges : simpl never.
 Local Open Scope string_scope.
 Local Open Scope list_scope.
@@ -116,3 +116,33 @@ Theorem C12_attr_identifier_refuted : forall nl,
 Proof. intros nl. split; vm_compute; reflexivity. Qed.
 Theorem C12_title_empty_refuted : title_format (s_ "1abc") = [] /\ title_format (s_ "none") = s_ "None".
 Proof. split; vm_compute; reflexivity. Qed.
+
+(* 5. Untitled object schemas: the automatic title (statham/titles.py, handed to json_ref_dict.materialize)
+      of a schema position.  It is the nearest pointer segment that is not looked through ("items", an array
+      index, a composition keyword) - or the file stem when there is none - followed by "Item" / the index for
+      every looked-through segment, outermost first; nothing above that segment matters; and whatever it is,
+      _title_format turns it into a class name of the shape of (3). *)
+Theorem C12_autotitle_shape : forall isdigit stem thru, forallb (transparent isdigit) thru = true ->
+  (forall t back, transparent isdigit t = false ->
+     title_rev isdigit stem (thru ++ t :: back) = t ++ suffixes isdigit thru) /\
+  title_rev isdigit stem thru = stem ++ suffixes isdigit thru.
+Proof. exact title_rev_shape. Qed.
+Print Assumptions C12_autotitle_shape.
+Theorem C12_autotitle_local : forall isdigit stem stem' thru t back back',
+  forallb (transparent isdigit) thru = true -> transparent isdigit t = false ->
+  title_rev isdigit stem (thru ++ t :: back) = title_rev isdigit stem' (thru ++ t :: back').
+Proof. exact title_rev_local. Qed.
+Theorem C12_autotitle_nonempty : forall isdigit stem rsegs, stem <> [] -> Forall (fun t => t <> []) rsegs ->
+  title_rev isdigit stem rsegs <> [].
+Proof. exact title_rev_nonempty. Qed.
+Theorem C12_autotitle_class_name : forall isdigit name segs,
+  titled (title_format (title_from_reference isdigit name segs)).
+Proof. intros. apply title_format_titled. Qed.
+Print Assumptions C12_autotitle_class_name.
+Example C12_autotitle_example :
+  let dg t := mem_str t [s_ "0"; s_ "12"] in
+  title_from_reference dg (s_ "schema.v2.json") (map s_ ["definitions"; "thing"; "properties"; "list"; "items"; "anyOf"; "0"])
+    = s_ "listItem0" /\
+  title_from_reference dg (s_ "schema.v2.json") (map s_ ["allOf"; "12"; "items"]) = s_ "schema12Item" /\
+  title_format (s_ "listItem0") = s_ "ListItem0".
+Proof. repeat split; vm_compute; reflexivity. Qed.
